@@ -76,12 +76,20 @@ CLAIMS = {
              "trace (per-file written/synced counters) under injected EIO / short writes at every call.",
              technique="Lean 4 invariants over the worker small-step machine + trace oracle under fault injection + correspondence",
              ref="8 C04"),
- "C05": dict(text="Proved: recovery never panics unless a journalled log index is u64::MAX (necessity witnessed); a record-less "
-             "newest chunk is removed and recreated with the replayed state (general multi-chunk form and single-file form). "
-             "Every legal crash image (process crash, cuts, zero fill at every caller position and worker progress) and crashes "
-             "during recovery itself must open, accept writes incl. an append, acknowledge a flush and reopen; the rotation-gap "
-             "class is a recorded finding.",
-             technique="Lean 4 decision lemmas about openStore + crash-image enumeration with model correspondence",
+ "C05": dict(text="Proved (Props/C05Crash) for every legal history (any cfg, any worker outcomes, worker alive) and every crash image of the "
+             "final directory: recovery never panics (c05_recovery_never_panics, no hypothesis on the image); with truncation enabled and "
+             "the image outside the recorded rotation-gap class (NoTornPredecessor: every linked file but the newest parses cleanly and "
+             "abuts its successor - guaranteed e.g. whenever the newest chunk's start is acknowledged, c05_no_torn_predecessor_when_synced) "
+             "open succeeds (c05_open_succeeds_partial); the recovered system satisfies all system invariants for the recovered reference "
+             "prefix incl. payloads (c05_recovered_store_is_consistent), so it accepts every further legal history with every call "
+             "returning ok, acknowledges flushes, a clean restart is the identity, and a further crash recovers again "
+             "(c05_recovered_accepts_history, c05_flush_is_acknowledged, c05_recovered_restart_is_identity, c05_two_crashes, the invariant "
+             "CrashInvC5b is preserved by histories and re-established by recovery); a crash at ANY moment of recovery itself (every "
+             "prefix of the file-system effects of open, any crash image of it) recovers the same state (c05_recovery_crash_is_recoverable). "
+             "The rotation-gap class is a recorded finding with a proved witness (c05_rotation_gap_witness). Run: every legal crash image "
+             "(process crash, cuts, zero fill at every caller position and worker progress) and crashes during recovery must open, accept "
+             "writes incl. an append, acknowledge a flush and reopen.",
+             technique="Lean 4 invariant proofs (crash invariant preserved by histories and re-established by recovery) + crash-image enumeration with model correspondence",
              ref="8 C05"),
  "C08": dict(text="Proved at system level for every legal history, every interleaving and every worker outcome along which the worker "
              "stays alive (Props/C08Sys): the linked files are exactly dropped-but-not-yet-unlinked chunks ++ live chunks, in order, each "
